@@ -130,7 +130,7 @@ let wfuel = nat_of_int 24
 
 let caps_of_query (c : case) = function
   | Q fa -> c.caps, c.opret, fa
-  | V (fa, t) -> BinNat.N.shiftl (Npos Coq_xH) (match t with Zpos p -> Npos p | _ -> N0), BinNums.Z0, fa
+  | V (fa, t) -> caps_of t, BinNums.Z0, fa
 
 let run_case (line : string) : string =
   let c = parse_case line in
@@ -141,8 +141,6 @@ let run_case (line : string) : string =
   let cache = ref ReadCache.init_cache in
   String.concat ";" (Stdlib.List.map (fun q ->
     let caps, opret, fa = caps_of_query c q in
-    let bad_target = match q with V (_, t) -> let k = int_of_z t in k < 0 || k > 63 | _ -> false in
-    if bad_target then "UB" else
     match SysEnv.op_depth lim osys c.rcaps gp big backing StepGlue.step_first StepGlue.step_next
             StepGlue.step_ptesz wfuel depth_budget Datatypes.O (fun _ -> opret) caps fa !cache with
     | ((Done (st, calls), d), c') ->
